@@ -146,7 +146,26 @@ def parts(tier):
             Part("scaling", strategy=_scaling(), examples=300 if q else 6000, timeout=300),
             Part("accuracy", strategy=_accuracy(), examples=500 if q else 10000, timeout=600),
             Part("blowup", strategy=_blowup(), examples=60 if q else 1500, timeout=300),
-            Part("half", strategy=_half(), examples=200 if q else 4000, timeout=300)]
+            Part("half", strategy=_half(), examples=200 if q else 4000, timeout=300),
+            Part("tol_setters", strategy=_tol_setters(), examples=120 if q else 3000, timeout=300)]
+
+
+@st.composite
+def _tol_setters(draw):
+    """the same run with its tolerances (a) given to the constructor and (b) assigned to system.rtol / system.atol after the
+    method was selected: rtol and atol six orders apart, states of magnitude 1e4 / 1e-5, shallow Richardson wrappers and
+    embedded pairs (whose error follows the tolerance closely)"""
+    method = draw(st.sampled_from(["Rich3:RK4Solver", "Rich3:MidpointSolver", "Rich2:RK45CKSolver", "RK45CKSolver", "DOPRI45", "RK8713MSolver", "HeunEulerSolver"]))
+    t0 = draw(st.sampled_from([0.0, 1.0, -2.0]))
+    L = draw(st.sampled_from([2.0, -2.0, 3.0]))
+    w = draw(st.sampled_from([1.0, 2.0, 0.5]))
+    damp = draw(st.sampled_from([0.0, -0.25]))
+    big = draw(st.booleans())
+    tol = draw(st.sampled_from([1e-6, 1e-7, 1e-8])) if method != "HeunEulerSolver" else 1e-5
+    rtol, atol = (tol * 1e-3, tol * 1e3) if big else (tol, tol * 1e-9)
+    ys = 1e4 if big else 1e-5
+    return dict(part="tol_setters", method=method, dtype="float64", prob=dict(kind="lin", A=[[damp, w], [-w, damp]]), y0=[ys * draw(st.sampled_from([1.0, 2.0, -0.5])), ys * draw(st.sampled_from([0.0, 1.0]))],
+                t0=t0, tf=t0 + L, dt=abs(L) * draw(st.sampled_from([0.05, 0.25, 1.0])), rtol=rtol, atol=atol, dense=False, snap=None, order=draw(st.sampled_from(["rtol_first", "atol_first"])))
 
 
 @st.composite
@@ -516,7 +535,46 @@ def _check_half(case):
     return viols, dict(nontrivial=case["dtf"] >= 1.0, labels=labels)
 
 
+def _check_tol_setters(case):
+    import desolver as de
+    method = case["method"]
+    fam = M.family(M.get(method))
+    attrs = dict(method=method, family=fam)
+    labels = ["method:" + method, "state_scale:" + ("1e4" if abs(case["y0"][0]) > 1 else "1e-5")]
+    errs = {}
+    for route in ("constructor", "setters"):
+        if route == "constructor":
+            a, f, y0 = traj.make_system(case)
+        else:
+            a, f, y0 = traj.make_system(dict(case, rtol=1e-3, atol=1e-3))
+            if case["order"] == "rtol_first":
+                a.rtol = case["rtol"]; a.atol = case["atol"]
+            else:
+                a.atol = case["atol"]; a.rtol = case["rtol"]
+        err = traj.run_integrate(a, step_limit=4000)
+        if isinstance(err, traj.StepCap):
+            return [], dict(nontrivial=False, labels=labels + ["capped"])
+        if err is not None:
+            if exc_origin(err)[0] == "harness":
+                raise err
+            return [], dict(nontrivial=False, labels=labels + ["reported_failure"])
+        werr, ymax = _errors(a, f, case, y0)
+        errs[route] = (werr, ymax, len(a))
+    unit = case["atol"] + case["rtol"] * errs["setters"][1]
+    amp = _amp(f, case, case["tf"] - case["t0"])
+    e_c, e_s = errs["constructor"][0], errs["setters"][0]
+    viols = []
+    # both runs are controlled at the same tolerances: the run that received them through the properties may not be far less
+    # accurate than the one that received them at construction AND beyond the tolerance-level error itself
+    if e_s > 50.0 * e_c and e_s > 5.0 * unit * amp:
+        viols.append(V("tolerances_assigned_not_honoured", "{}: rtol = {:.1e}, atol = {:.1e} assigned through system.rtol / system.atol ({}): max error {:.3e} = {:.1f} x (atol + rtol max|y|) in {} steps; the same tolerances given to the constructor: {:.3e} in {} steps".format(
+            method, case["rtol"], case["atol"], case["order"], e_s, e_s / unit, errs["setters"][2], e_c, errs["constructor"][2]), fam, **attrs))
+    return viols, dict(nontrivial=True, labels=labels, metrics={"err_setters/err_constructor": e_s / max(e_c, 1e-300)})
+
+
 def check(case):
+    if case["part"] == "tol_setters":
+        return _check_tol_setters(case)
     if case["part"] == "half":
         return _check_half(case)
     if case["part"] == "sharp":
